@@ -130,6 +130,15 @@ CLAIMED = {
         engine='sqlvc',
         design_ref='7/C02',
     ),
+    'C06': dict(
+        text='K2 (state = complete <=> n_completed = n_jobs) is proved preserved for EVERY group of the batch and for the batch row by mark_job_complete (with the cursor loop of mark_job_group_complete executed as a pointwise transformer) '
+        'and by commit_batch_update, whose staged-count aggregate is shown pointwise to sum all staging rows of (batch, update, group); groups reopen iff jobs were staged; a wrong staged count rolls everything back; '
+        'batch_record_to_dict / job_group_record_to_dict pass the flag and counters through (AST obligations).',
+        note=COMMON_NOTE + 'Assumed: each procedure/trigger invocation is atomic (serialisable isolation, justified by the lock-discipline obligations); MySQL NULL/boolean semantics as encoded in vc/sqlvc.py; integer column widths sufficient; SQL cannot be executed in this sandbox so counter-models are rows (VIOLATION ... no-failing-input-found). ' + 'The counting invariant K is used through its consequences (n_completed <= n_jobs; < for ancestors of a committed non-terminal job) - maintained under C04/C41. Sums compared pointwise (paper lemma L2).',
+        technique='procedure contracts (invariant preservation, pointwise aggregate obligations) on the real SQL text, sqlvc -> z3',
+        engine='sqlvc',
+        design_ref='7/C06',
+    ),
 }
 
 NOT_YET = 'not yet brought within the verifier\'s reach in this build (planned in DESIGN.md section 7); no claim is made'
